@@ -152,6 +152,13 @@ func runProperty(repo, specs, prop, tier, out string) int {
 		sn := p.ShortName(fn)
 		for _, pat := range cfg.Funcs {
 			if pat == sn || (strings.HasSuffix(pat, "*") && strings.HasPrefix(sn, strings.TrimSuffix(pat, "*"))) {
+				if pat != sn && p.Contracts[fn.String()] == nil && !fn.Object().Exported() && len(fn.Blocks) > 0 && len(NewExec(p, fn).loopsOf(fn)) == 0 {
+					// an unexported loop-free helper without a contract, matched by a wildcard only: it is verified in
+					// place at each of its call sites (calls.go), in the context its callers establish, not on its own
+					// for arbitrary arguments
+					matched[pat] = true
+					break
+				}
 				fns = append(fns, fn)
 				matched[pat] = true
 				break
